@@ -49,6 +49,13 @@ pub fn generate(rng: &mut Rng, seed: u64, run: u64, max_len: usize) -> Trace {
         // a second, independent console stream is fed between the calls of this one
         params.push(("twin_stream".to_string(), 1));
     }
+    if rng.chance(1, 4) {
+        params.push(("predecessor_stream".to_string(), 1));
+    }
+    if rng.chance(1, 2) {
+        // a client that logs a failed call and carries on with the next record (see c06.rs)
+        params.push(("moves_on_after_failed_record".to_string(), 1));
+    }
     Trace { prop: "C18".into(), surface: surface.into(), input: wl.bytes, ops, faults, params, seed, run }
 }
 
@@ -267,6 +274,14 @@ pub fn execute(t: &Trace, stats: &mut Stats, record: bool) -> Outcome {
     } else {
         stats.probe("config_faulty");
     }
+    if t.param("predecessor_stream") == Some(1) {
+        // another stream object lived (and was unwrapped) on this thread first, ending coloured and
+        // inside a sequence: nothing of it may carry over to the stream under test
+        let mut pre = wincon_port::WinconStream::new(SimConsole::new(vec![], false));
+        let _ = pre.write_all(b"\x1b[33;44mpre\x1b[1;3");
+        let _ = pre.into_inner();
+        stats.probe("predecessor_stream_unwrapped_first");
+    }
     let mut console_slot = console;
     let mut owned;
     let mut borrowed;
@@ -301,6 +316,10 @@ pub fn execute(t: &Trace, stats: &mut Stats, record: bool) -> Outcome {
     let mut nontrivial = false;
     let mut stopped = false;
     let mut client_wrote_after_error = false;
+    let moves_on = t.param("moves_on_after_failed_record") == Some(1) && std::str::from_utf8(input).is_ok();
+    // (what the console held after the failed call, expectation up to the end of the failed record,
+    // input offset of the next record)
+    let mut aftermath: Option<(usize, Vec<(u8, u8, u8)>, usize)> = None;
 
     let stride = check_stride(t.ops.len());
     let mut since_check = 0usize;
@@ -468,7 +487,25 @@ pub fn execute(t: &Trace, stats: &mut Stats, record: bool) -> Outcome {
                         }
                     }
                 }
-                if *k != io::ErrorKind::Interrupted {
+                let fail_end = c_before + buf.len();
+                if *k != io::ErrorKind::Interrupted && moves_on && aftermath.is_none() && !fmt_keeps_going(&op) && is_char_boundary(input, fail_end) && applied != Applied::Vectored {
+                    // (a vectored call only attempts its first non-empty slice, which may end inside
+                    // a character)
+                    // error aftermath: the client gives the record up, abandons whatever sequence
+                    // the stream was left in (CAN) and whatever style (SGR 0), and carries on
+                    let base_len = delivered_tagged(&h).len();
+                    if matches!(catch(|| sut.write_all(b"\x18\x1b[0m")), Ok(Ok(()))) {
+                        aftermath = Some((base_len, expected_tagged(&input[..fail_end]), fail_end));
+                        c = fail_end;
+                        stats.probe("history_moved_on_after_failed_record");
+                        if record {
+                            log.push("client gives up on this record, sends CAN + SGR 0 and carries on with the next one".into());
+                        }
+                    } else {
+                        stopped = true;
+                        strict = false;
+                    }
+                } else if *k != io::ErrorKind::Interrupted {
                     stopped = true;
                     strict = false;
                     if fmt_keeps_going(&op) {
@@ -494,6 +531,33 @@ pub fn execute(t: &Trace, stats: &mut Stats, record: bool) -> Outcome {
         }
         since_check = 0;
         let d = delivered_tagged(&h);
+        if let Some((base_len, f, resume)) = &aftermath {
+            // what arrived before stays, the rest of the failed record may still arrive (late, in
+            // order, at most once, in its own colours), then the later records - nothing twice
+            if strict {
+                let tail = expected_tagged(&input[*resume..c]);
+                let ok = d.len() >= tail.len() && d.ends_with(&tail) && {
+                    let head = &d[..d.len() - tail.len()];
+                    head.len() >= *base_len && f.starts_with(head)
+                };
+                if !ok {
+                    violation = Some(viol(
+                        if d.len() > base_len + tail.len() { "dup-text" } else { "wrong-text" },
+                        format!(
+                            "after {what}: the client had given up on the record ending at input offset {resume} (the console held {base_len} text bytes then), sent CAN + SGR 0 and carried on; the records since should be handed over as {} but the console now holds {} - not <what it held, optionally more of the failed record in order> followed by the later records",
+                            show(&tail),
+                            show(&d)
+                        ),
+                    ));
+                    break;
+                }
+            }
+            if stopped {
+                stats.probe("history_stopped_by_hard_error");
+                break;
+            }
+            continue;
+        }
         if strict {
             let e = expected_tagged(&input[..c]);
             if d != e {
@@ -520,7 +584,10 @@ pub fn execute(t: &Trace, stats: &mut Stats, record: bool) -> Outcome {
             break;
         }
     }
-    if violation.is_none() && !stopped {
+    if violation.is_none() && !stopped && aftermath.is_some() {
+        stats.probe("history_finished_after_a_failed_record");
+    }
+    if violation.is_none() && !stopped && aftermath.is_none() {
         stats.probe("history_delivered_everything");
         let d = delivered_tagged(&h);
         if d != whole {
@@ -546,7 +613,7 @@ pub fn execute(t: &Trace, stats: &mut Stats, record: bool) -> Outcome {
             ));
         }
     }
-    if violation.is_none() && !client_wrote_after_error {
+    if violation.is_none() && !client_wrote_after_error && aftermath.is_none() {
         if let Some(m) = &text_model {
             let d: Vec<u8> = delivered_tagged(&h).iter().map(|x| x.0).collect();
             if !m.starts_with(&d) {
@@ -557,7 +624,7 @@ pub fn execute(t: &Trace, stats: &mut Stats, record: bool) -> Outcome {
             }
         }
     }
-    if violation.is_none() && !client_wrote_after_error {
+    if violation.is_none() && !client_wrote_after_error && aftermath.is_none() {
         // what the console got is a prefix of the extractor-derived expectation; for inputs of the
         // restricted grammar it must also be a prefix of the independent interpretation
         if let Some(m) = &model {
